@@ -20,11 +20,11 @@ def answer(frames):
     return sorted(out)
 
 
-class Mon(CountingGhost):
+class Mon(LifeCounting):
     prop = "C14"
 
     def __init__(self, worlds):
-        CountingGhost.__init__(self, worlds)
+        LifeCounting.__init__(self, worlds)
         self.last = None      # (conn, app, side, explicit command, answer) of the last acknowledged command
         self.dupped = False
 
@@ -40,10 +40,14 @@ class Mon(CountingGhost):
             dupans = answer([f for r in rs if r.ev[0] == cmd[0] for cc, f in r.frames if cc == DUPC])
             excs = [r.exc for r in rs if r.exc]
             if excs or dupans != ans:
+                # did a third side ever knock at the mailbox this command touches? (known finding F6)
+                third = any(len(v["order"]) > 2 for k, v in self.mb.items() if k[0] == app)
                 viols.append(self.V("duplicate-answered-differently",
                                     {"command": list(cmd), "original_answer": ans, "duplicate_answer": dupans,
                                      "exc": excs, "steps": [r.brief() for r in rs]},
-                                    {"cmd": cmd[0], "exc": excs[0][0] if excs else None}))
+                                    {"cmd": cmd[0], "exc": excs[0][0] if excs else None,
+                                     "dup_crowded": any("crowded" in a for a in dupans),
+                                     "after_third_party_attempt": third}))
             stray = [[cc, f] for r in rs for cc, f in r.frames if cc != DUPC]
             if stray:
                 viols.append(self.V("duplicate-disturbed-other-connections", {"frames": stray, "command": list(cmd)},
@@ -93,7 +97,7 @@ class Mon(CountingGhost):
         return viols
 
     def ghost(self):
-        g = CountingGhost.ghost(self)
+        g = LifeCounting.ghost(self)
         g["dupped"] = self.dupped
         g["last"] = [self.last[0], list(self.last[3])] if self.last else None
         return g
